@@ -66,9 +66,10 @@ def magnitude(name, p, r, sigma):
 
 
 def params_strategy(name):
-    eps_pm = st.builds(lambda s, m: s * m, st.sampled_from([-1.0, 1.0]), specs.logfloat(-3, 1, 6))
-    eps_pos = specs.logfloat(-3, 1, 6)
-    high = st.sampled_from([1e2, 1e6, 1e12])
+    # python ints are valid parameter values too (the docstring examples write high_value=10**6)
+    eps_pm = st.one_of(st.builds(lambda s, m: s * m, st.sampled_from([-1.0, 1.0]), specs.logfloat(-3, 1, 6)), st.sampled_from([1, -1, 2]))
+    eps_pos = st.one_of(specs.logfloat(-3, 1, 6), specs.logfloat(-3, 1, 6), st.sampled_from([1, 2]))
+    high = st.sampled_from([1e2, 1e6, 1e12, 10 ** 6, 100])
     if name == 'HardSphere':
         return st.fixed_dictionaries({'high_value': high})
     if name == 'Exponential':
